@@ -48,13 +48,12 @@ Fixpoint scoped (avail : list Z) (p : prog) : bool :=
   | RbTo n k => memz n avail && scoped (cutz n avail) k
   end.
 
-(* no block cancels a context and no call changes the nested-transaction setting on the way:
-   the domain of the theorems *)
+(* no block cancels a context: the domain of the theorems *)
 Fixpoint plain_prog (p : prog) : bool :=
   match p with
   | Done _ => true
   | Write _ _ k | Read _ k | Save _ k | RbTo _ k => plain_prog k
-  | Child b _ _ _ nn k => negb nn && plain_prog b && plain_prog k
+  | Child b _ _ _ _ k => plain_prog b && plain_prog k
   | Cancel _ => false
   end.
 
